@@ -702,12 +702,25 @@ func (x *Exec) callCommon(st *State, c *ssa.CallCommon, i ssa.Value, pos token.P
 		}
 		return true
 	}
+	if x.readOnlyCall(callee) {
+		x.abstr["read-only by effect analysis "+shortKey(key)]++
+		if sig.Results().Len() > 0 {
+			res := x.havocVal(st, resType(i, sig), "ro")
+			setRes(fr, i, res)
+			st.callRes[key] = append(st.callRes[key], res)
+		}
+		st.callArgs[key] = append(st.callArgs[key], args)
+		return true
+	}
 	x.abstr["havoc "+shortKey(key)]++
 	st.calls["effect:havoc "+shortKey(key)]++
+	st.callArgs[key] = append(st.callArgs[key], args)
 	x.havocAll(st)
 	x.advanceNow(st)
 	if sig.Results().Len() > 0 {
-		setRes(fr, i, x.havocVal(st, resType(i, sig), "call"))
+		res := x.havocVal(st, resType(i, sig), "call")
+		setRes(fr, i, res)
+		st.callRes[key] = append(st.callRes[key], res)
 	}
 	return true
 }
